@@ -338,18 +338,93 @@ example : levelAddrSpec 0xCC [0xC3, 0x3C, 0x33, 0xCE, 0x3E, 0xE3] 3 = some [0xCC
     levelAddrSpec 0xCC [0xC3, 0x3C, 0x33, 0xCE, 0x3E, 0xE3] 0 = some [0xC3, 0xCC, 0xCC, 0xCC, 0xCC] := by
   decide
 
-/-- `multicast_level = lvl` clamps to 0..4 (the identity on 0..4) and re-opens pipe 0 with the
-    address of that level -/
+/-- `multicast_level = lvl` on a network that allows multicast clamps to 0..4 (the identity on
+    0..4) and re-opens pipe 0 with the address of that level — whatever the node's own address
+    `addr` is -/
 theorem C04_level_setter (cfg : AddrCfg) (hc : CfgOk cfg) (ham : cfg.allowMulticast = true)
-    (lvl : Int) :
+    (addr : Nat) (lvl : Int) :
     setMulticastLevel lvl ≤ 4 ∧ (0 ≤ lvl → lvl ≤ 4 → (setMulticastLevel lvl : Int) = lvl) ∧
     ∃ x, levelAddrSpec cfg.pfx cfg.sfx (setMulticastLevel lvl) = some x ∧
-      multicastLevelAddr cfg lvl = .ok x := by
+      multicastLevelAddr cfg addr lvl = .ok x := by
   have h4 : setMulticastLevel lvl ≤ 4 := by unfold setMulticastLevel MULTICAST_LEVEL_MAX; omega
-  refine ⟨h4, ?_, pipeAddress_level (hg hc) ham (by omega)⟩
-  intro h0 h1
-  unfold setMulticastLevel MULTICAST_LEVEL_MAX
-  omega
+  refine ⟨h4, ?_, ?_⟩
+  · intro h0 h1
+    unfold setMulticastLevel MULTICAST_LEVEL_MAX
+    omega
+  · rw [multicastLevelAddr, if_pos ham]
+    exact pipeAddress_level (hg hc) ham (by omega)
+
+example : CfgOk {} ∧ ({} : AddrCfg).allowMulticast = true ∧
+    multicastLevelAddr {} 0o11 2 = .ok [0xCC, 0x33, 0xCC, 0xCC, 0xCC] := by
+  refine ⟨by decide, rfl, ?_⟩
+  obtain ⟨_, _, x, h1, h2⟩ := C04_level_setter {} (by decide) rfl 0o11 2
+  have e : levelAddrSpec 0xCC [0xC3, 0x3C, 0x33, 0xCE, 0x3E, 0xE3] (setMulticastLevel 2)
+      = some [0xCC, 0x33, 0xCC, 0xCC, 0xCC] := by decide
+  cases e.symm.trans h1
+  exact h2
+
+/-- `multicast_level = lvl` on a network that does NOT allow multicast: the level attribute is
+    assigned all the same, and pipe 0 is re-opened on the node's own pipe-0 address — the address
+    the spec demands of pipe 0 (`physAddrSpec`, = `listenSpec` without multicast), which is what
+    `_begin` had opened there (`_pipe_address(self._addr, 0)`), whatever `lvl` is.  (Since the fix
+    "multicast_level setter moved pipe 0 off the node's own address when allow_multicast is
+    False", 6a18625; before it the setter programmed the own pipe-0 address of the first node of
+    level `lvl`: known finding `C07-mclvl-no-multicast`.) -/
+theorem C04_level_setter_own (cfg : AddrCfg) (hc : CfgOk cfg) (ham : cfg.allowMulticast = false)
+    (ds : List Nat) (hn : IsNode ds) (lvl : Int) :
+    setMulticastLevel lvl ≤ 4 ∧ (0 ≤ lvl → lvl ≤ 4 → (setMulticastLevel lvl : Int) = lvl) ∧
+    ∃ x, physAddrSpec cfg.pfx cfg.sfx ds 0 = some x ∧
+      listenSpec cfg.pfx cfg.sfx cfg.allowMulticast ds 0 = some x ∧
+      multicastLevelAddr cfg (val ds) lvl = .ok x ∧
+      pipeAddress cfg (val ds) 0 = .ok x := by
+  have h4 : setMulticastLevel lvl ≤ 4 := by unfold setMulticastLevel MULTICAST_LEVEL_MAX; omega
+  refine ⟨h4, ?_, ?_⟩
+  · intro h0 h1
+    unfold setMulticastLevel MULTICAST_LEVEL_MAX
+    omega
+  · obtain ⟨a, h1, h2, _, h3⟩ := C04_phys cfg hc ds hn 0 (Nat.zero_le 5)
+    refine ⟨a, h3 (Or.inr ham), h1, ?_, h2⟩
+    rw [multicastLevelAddr, if_neg (by rw [ham]; exact Bool.false_ne_true)]
+    exact h2
+
+/-- the finding's witness: node 0o11 without multicast, `multicast_level = 2` keeps pipe 0 on the
+    node's own address c33c3ccccc (the unrepaired setter programmed c3c33ccccc, the own pipe-0
+    address of the first "node" of level 2, `_lvl_2_addr(2)` = 0o10) -/
+example : CfgOk { allowMulticast := false } ∧ IsNode [1, 1] ∧ val [1, 1] = 0o11 ∧
+    multicastLevelAddr { allowMulticast := false } 0o11 2 = .ok [0xC3, 0x3C, 0x3C, 0xCC, 0xCC] := by
+  refine ⟨by decide, by decide, by decide, ?_⟩
+  obtain ⟨_, _, x, h1, _, h2, _⟩ :=
+    C04_level_setter_own { allowMulticast := false } (by decide) rfl [1, 1] (by decide) 2
+  have e : physAddrSpec 0xCC [0xC3, 0x3C, 0x33, 0xCE, 0x3E, 0xE3] [1, 1] 0
+      = some [0xC3, 0x3C, 0x3C, 0xCC, 0xCC] := by decide
+  cases e.symm.trans h1
+  exact h2
+
+/-- Which address the setter programs, in one statement: for every tree node and every argument
+    the call produces a five-byte address, and that address is the address of the (clamped) level
+    if the network allows multicast, the node's own pipe-0 address otherwise.  Either way no
+    pipe 1..5 of any node listens on it (`C04_unique`, `C04_unique_level`), and without multicast
+    no other node's pipe 0 does either (`C04_unique_nomc`). -/
+theorem C04_level_setter_addr (cfg : AddrCfg) (hc : CfgOk cfg) (ds : List Nat) (hn : IsNode ds)
+    (lvl : Int) :
+    ∃ x, multicastLevelAddr cfg (val ds) lvl = .ok x ∧ x.length = 5 ∧
+      (if cfg.allowMulticast then levelAddrSpec cfg.pfx cfg.sfx (setMulticastLevel lvl)
+        else physAddrSpec cfg.pfx cfg.sfx ds 0) = some x := by
+  cases ham : cfg.allowMulticast
+  · obtain ⟨_, _, x, h1, _, h2, h3⟩ := C04_level_setter_own cfg hc ham ds hn lvl
+    obtain ⟨a, _, h5, h6, _⟩ := C04_phys cfg hc ds hn 0 (Nat.zero_le 5)
+    cases h3.symm.trans h5
+    exact ⟨x, h2, h6, by simpa using h1⟩
+  · obtain ⟨h4, _, x, h1, h2⟩ := C04_level_setter cfg hc ham (val ds) lvl
+    refine ⟨x, h2, ?_, by simpa using h1⟩
+    rw [multicastLevelAddr, if_pos ham] at h2
+    by_cases h0 : setMulticastLevel lvl = 0
+    · rw [h0, pipeAddress_lvl0 (hg hc)] at h2
+      cases h2; simp [physFn]
+    · rw [pipeAddress_lvl (hg hc) (by omega) (by omega) ham] at h2
+      cases h2; rfl
+
+example : CfgOk {} ∧ CfgOk { allowMulticast := false } ∧ IsNode [3, 2, 1] := by decide
 
 /-- `multicast()` from node `s` with `level=None` addresses the sender's own level, with an explicit
     level `0 ≤ l ≤ 4` that level: the logical target is `_lvl_2_addr(L)` and the transmission goes
